@@ -90,6 +90,20 @@ def J(x):
     return tlaval.to_jsonable(x)
 
 
+def parse_vars(block, names):
+    """Like tlaval.parse_state_block but only the named variables are parsed (the dumped states also carry the
+    heap, the pre-state and the ghost denotations, which the driver does not read)."""
+    st = {}
+    ms = list(tlaval._VAR.finditer(block))
+    for j, m in enumerate(ms):
+        if m.group(1) in names:
+            end = ms[j + 1].start() if j + 1 < len(ms) else len(block)
+            st[m.group(1)] = tlaval.parse(block[m.end() : end])
+    if len(st) != len(names):
+        raise RuntimeError("dumped state lacks variables %r: %r" % (sorted(set(names) - set(st)), block[:200]))
+    return st
+
+
 # ------------------------------------------------------------------------ G: ValueSets histories
 def _item_arg(it):
     return it[1] if it[0] == "v" else (it[1], it[2])
@@ -203,7 +217,7 @@ def vs_exec(case):
 
 def vs_block(arg):
     block, n = arg
-    st = tlaval.parse_state_block(block)
+    st = parse_vars(block, ("hist", "obs"))
     if not st["hist"]:
         return None
     case = {"hist": J(st["hist"]), "obs": J(st["obs"]), "n": n}
@@ -352,7 +366,7 @@ def tab_touch_exec(hist, obs, cols, checks):
 
 
 def tab_block(block):
-    st = tlaval.parse_state_block(block)
+    st = parse_vars(block, ("hist", "obs"))
     if not st["hist"]:
         return None
     case = {"hist": J(st["hist"]), "obs": J(st["obs"])}
@@ -462,7 +476,7 @@ def csv_exec(case):
 
 
 def csv_block(block):
-    st = tlaval.parse_state_block(block)
+    st = parse_vars(block, ("hist", "obs", "nread"))
     if st["nread"] == 0:
         return None
     case = {"hist": J(st["hist"]), "obs": J(st["obs"])}
